@@ -71,6 +71,28 @@ func init() {
 			replies("text-flags-5digits", map[string]int64{"pipeline": 1, "text": 1, "maxflags": 99999, "digits": 3}, c08only, "single text request, stored flags up to 99999 (1-5 digit renderings), 3-digit numeric request fields"),
 		}})
 
+	conc3 := func(name string, params map[string]int64, bounds string) Job {
+		return Job{Pkg: "./zz_verif/orcah", Func: "ZZLockedConcurrent", Name: name, Params: params, Sched: true, SchedKinds: "rt,lock,unlock", SchedSkipPkgs: "github.com/netflix/rend/metrics",
+			NoReplay: true, Note: "schedule-dependent: the native run cannot be forced into the explored interleaving (counterexamples are reported with the schedule trace)",
+			Reach: []string{"both-done"}, Bounds: bounds}
+	}
+	c3b := "two connections x one command each (all 81 ordered pairs of set add replace append prepend delete touch gat get), connection B on the main port (Locked(L1L2)) or on the batch port (LockedWithExisting(L1L2Batch), same lock set), single- and multi-reader locks; shared L1/L2 model stores in an arbitrary valid state; every interleaving at key-lock operations and backend calls; values, flags, TTLs symbolic; "
+	c3t := []Job{}
+	for k := int64(0); k < 9; k++ {
+		c3t = append(c3t, conc3("two-keys-two-stripes-a"+itoa(k), map[string]int64{"nk": 2, "concurrency": 1, "a.cmd": k}, c3b+"2 keys, 2 lock stripes (same and different stripes), first connection's command fixed per job"))
+	}
+	reg(Check{ID: "C03", Level: "model_checking", Assumptions: append([]string{
+		"A5: engine mutex model, any waiter may win; scheduling points: key-lock acquire/release and every backend (model handler) call; lock/atomic operations inside package metrics and the channel operations on each connection's private reply channels are not scheduling points (independent of the observed state)",
+		"schedule reduction: a goroutine that has just been preempted to takes its next visible operation before it can be preempted again, and a preemption to a goroutine that immediately blocks on a held mutex is dropped (equivalent to not preempting there); deadlocks are still reached because forced switches are never dropped",
+		"linearizability oracle: both reply logs and the final L2 state equal those of one of the two sequential orders on the reference map (real-time order is vacuous for two overlapping single commands)",
+		"bounds: 2 connections x 1 command; more connections, longer programs and the random-schedule clause of the property are outside the claim",
+	}, orcaAssumptions...),
+		Quick: []Job{
+			conc3("one-key", map[string]int64{"nk": 1, "concurrency": 0}, c3b+"1 key, 1 lock stripe"),
+			{Pkg: "./zz_verif/orcah", Func: "ZZLockWiring", Reach: []string{"wired"}, Bounds: "Locked / LockedWithExisting with concurrency 0..2, single/multi reader: the orcas of both ports hold the same locker objects; stripe index a function of the key bytes (keys of 1..3 symbolic bytes)"},
+		},
+		Thorough: c3t})
+
 	reg(Check{ID: "C12", Level: "model_checking", Assumptions: append([]string{
 		"lock discipline observed through instrumented lockers injected into the lock-set slot by an overlay file in package orcas (no change to the repository)",
 		"faults: the n-th call on the L1 or L2 model handler returns an I/O error, returns ERROR Busy, or panics; one fault per command",
